@@ -18,10 +18,12 @@ package main
 
 import (
 	"fmt"
+	"os"
 	"regexp"
 	"sort"
 	"strconv"
 	"strings"
+	"time"
 
 	"github.com/pdfcpu/pdfcpu/pkg/api"
 	"verif/vh"
@@ -210,42 +212,59 @@ type out struct {
 	panicked string
 }
 
-func guard(o *out) {
-	if x := recover(); x != nil {
-		o.panicked = fmt.Sprint(x)
+// every call of the implementation runs under a watchdog: a change that removes a bound can turn a
+// term such as 1-9223372036854775807 into an endless loop; that is reported as a failing input.
+func watch(what string, input any, f func() out) out {
+	ch := make(chan out, 1)
+	go func() {
+		var o out
+		defer func() {
+			if x := recover(); x != nil {
+				o.panicked = fmt.Sprint(x)
+			}
+			ch <- o
+		}()
+		o = f()
+	}()
+	select {
+	case o := <-ch:
+		return o
+	case <-time.After(2 * time.Second):
+		fail("hang", input, what+" did not return within 2 s")
+		r.Finish()
+		os.Exit(0)
 	}
+	return out{}
 }
 
-func implParse(s string) (o out) {
-	defer guard(&o)
-	o.toks, o.parseErr = api.ParsePageSelection(s)
-	return
+func implParse(s string) out {
+	return watch("ParsePageSelection", map[string]any{"expr": s}, func() (o out) {
+		o.toks, o.parseErr = api.ParsePageSelection(s)
+		return
+	})
 }
 
-func implSel(n int, toks []string, ens bool) (o out) {
-	defer guard(&o)
-	m, err := api.PagesForPageSelection(n, toks, ens, false)
-	o.sel, o.selErr = map[int]bool(m), err
-	if m == nil {
-		o.sel = nil
-	}
-	return
+func implSel(n int, toks []string, ens bool) out {
+	return watch("PagesForPageSelection", map[string]any{"expr": strings.Join(toks, ","), "pageCount": n}, func() (o out) {
+		m, err := api.PagesForPageSelection(n, toks, ens, false)
+		o.sel, o.selErr = map[int]bool(m), err
+		return
+	})
 }
 
-func implRem(n int, toks []string) (o out) {
-	defer guard(&o)
-	m, err := api.RemainingPagesForPageRemoval(n, toks, false)
-	o.sel, o.selErr = map[int]bool(m), err
-	if m == nil {
-		o.sel = nil
-	}
-	return
+func implRem(n int, toks []string) out {
+	return watch("RemainingPagesForPageRemoval", map[string]any{"expr": strings.Join(toks, ","), "pageCount": n}, func() (o out) {
+		m, err := api.RemainingPagesForPageRemoval(n, toks, false)
+		o.sel, o.selErr = map[int]bool(m), err
+		return
+	})
 }
 
-func implCol(n int, toks []string) (o out) {
-	defer guard(&o)
-	o.col, o.colErr = api.PagesForPageCollection(n, toks)
-	return
+func implCol(n int, toks []string) out {
+	return watch("PagesForPageCollection", map[string]any{"expr": strings.Join(toks, ","), "pageCount": n}, func() (o out) {
+		o.col, o.colErr = api.PagesForPageCollection(n, toks)
+		return
+	})
 }
 
 func selResult(o out) string {
